@@ -2,11 +2,23 @@
 // code from /repo/src/Imath/half.h, in whatever configuration this TU is
 // compiled with, and prints the same canonical lines as lean/Driver/Half.lean.
 //
-//   f2h_blocks <lo> <hi> <api> <canon>   api: c | cxx ; canon: 0 | 1 (NaN -> sign|0x7e00)
+//   f2h_blocks <lo> <hi> <api> <canon>   api: c | cxx | asg ; canon: 0 | 1 (NaN -> sign|0x7e00)
+//        c   = imath_float_to_half / imath_half_to_float
+//        cxx = half::half(float) + bits() / half::operator float()
+//        asg = half::operator=(float) + bits()            (float->half only)
+//   f2h_list <api> <canon> <block>..     the same hashes for an explicit list of 2^16-blocks
+//   f2hx_blocks <lo> <hi> <api> | f2hx_list <api> <block>.. | f2hx_range <lo> <hi> <api>
+//        hash / list of (result | raised<<16), raised = 1 FE_OVERFLOW, 2 FE_UNDERFLOW, 4 any other
+//        exception flag, read with fetestexcept after every call (IMATH_HALF_ENABLE_FP_EXCEPTIONS build)
 //   h2f_all <api> <canon>
-//   round_all <n> | class_all | f2h <hex>.. | h2f <hex>..
+//   config | rm_control | round_all <n> | class_all | f2h <hex>.. | h2f <hex>..
+//
+// Environment HALF_CORR_ROUND = ne | tz | up | dn : fesetround() in main and in every worker
+// thread before any conversion runs (the conversions must not depend on the caller's rounding
+// mode); every worker re-reads fegetround() afterwards and the run fails (exit 4) if it changed.
 #ifdef __cplusplus
 #include <half.h>
+#include <fenv.h>
 #include <cstdio>
 #include <cstring>
 #include <cstdlib>
@@ -17,6 +29,7 @@ using namespace IMATH_NAMESPACE;
 #define HAVE_CXX 1
 #else
 #include <half.h>
+#include <fenv.h>
 #include <stdio.h>
 #include <string.h>
 #include <stdlib.h>
@@ -28,10 +41,17 @@ using namespace IMATH_NAMESPACE;
 static uint32_t f2u (float f) { uint32_t u; memcpy (&u, &f, 4); return u; }
 static float u2f (uint32_t u) { float f; memcpy (&f, &u, 4); return f; }
 
+static int g_round = -1;     // -1: leave the rounding mode alone
+static int g_round_bad = 0;
+static void set_round (void) { if (g_round >= 0 && fesetround (g_round)) g_round_bad = 1; }
+static void chk_round (void) { if (g_round >= 0 && fegetround () != g_round) g_round_bad = 1; }
+static int parse_api (const char* s) { return !strcmp (s, "cxx") ? 1 : !strcmp (s, "asg") ? 2 : 0; }
+
 static uint16_t conv_f2h (uint32_t u, int cxx)
 {
 #if HAVE_CXX
-    if (cxx) { half h (u2f (u)); return h.bits (); }
+    if (cxx == 1) { half h (u2f (u)); return h.bits (); }
+    if (cxx == 2) { half h; h.setBits (0x5555); h = u2f (u); return h.bits (); }
 #endif
     return imath_float_to_half (u2f (u));
 }
@@ -42,6 +62,14 @@ static uint32_t conv_h2f (uint16_t b, int cxx)
 #endif
     return f2u (imath_half_to_float (b));
 }
+#if defined(__F16C__) && !defined(_MSC_VER)
+// the harness' OWN hardware conversion (positive control of the rounding-mode dimension), kept in a
+// named non-inlined function so that the check can tell it from half.h's when it disassembles this object
+#ifdef __cplusplus
+extern "C"
+#endif
+__attribute__ ((noinline)) unsigned rm_control_f16c (float x) { return (unsigned) _cvtss_sh (x, _MM_FROUND_CUR_DIRECTION); }
+#endif
 static uint16_t canon16 (uint16_t h) { return ((h & 0x7c00) == 0x7c00 && (h & 0x3ff)) ? (uint16_t)((h & 0x8000) | 0x7e00) : h; }
 static uint32_t canon32 (uint32_t f) { return ((f & 0x7f800000u) == 0x7f800000u && (f & 0x7fffffu)) ? ((f & 0x80000000u) | 0x7fc00000u) : f; }
 
@@ -58,23 +86,106 @@ static uint64_t block_hash (uint32_t b, int cxx, int canon)
     return h;
 }
 
+// float->half observing the floating-point exception flags the call leaves behind
+static uint32_t conv_f2hx (uint32_t u, int cxx)
+{
+    uint16_t r = conv_f2h (u, cxx);
+    int e = fetestexcept (FE_ALL_EXCEPT);
+    uint32_t code = 0;
+    if (e)
+    {
+        feclearexcept (FE_ALL_EXCEPT);
+        code = ((e & FE_OVERFLOW) ? 1u : 0u) | ((e & FE_UNDERFLOW) ? 2u : 0u) | ((e & ~(FE_OVERFLOW | FE_UNDERFLOW)) ? 4u : 0u);
+    }
+    return (uint32_t) r | (code << 16);
+}
+static uint64_t block_hashx (uint32_t b, int cxx)
+{
+    uint64_t h = 1469598103934665603ull;
+    uint32_t base = b << 16;
+    feclearexcept (FE_ALL_EXCEPT);
+    for (uint32_t i = 0; i < 65536; ++i) h = (h ^ (uint64_t) conv_f2hx (base + i, cxx)) * 1099511628211ull;
+    return h;
+}
+// canon < 0 selects the exception-observing hash
+static uint64_t any_hash (uint32_t b, int cxx, int canon) { return canon < 0 ? block_hashx (b, cxx) : block_hash (b, cxx, canon); }
+
 #if !HAVE_CXX
 // plain C: the same 16-way split of the block range, with pthreads
-struct blk_job { uint32_t lo, hi, t, nt; int cxx, canon; uint64_t* out; };
+struct blk_job { uint32_t lo, hi, t, nt; int cxx, canon; uint64_t* out; const uint32_t* list; };
 static void* blk_worker (void* p)
 {
     struct blk_job* j = (struct blk_job*) p;
-    for (uint32_t b = j->lo + j->t; b < j->hi; b += j->nt) j->out[b - j->lo] = block_hash (b, j->cxx, j->canon);
+    set_round ();
+    for (uint32_t b = j->lo + j->t; b < j->hi; b += j->nt)
+        j->out[b - j->lo] = any_hash (j->list ? j->list[b] : b, j->cxx, j->canon);
+    chk_round ();
     return 0;
 }
 #endif
 
+// hashes of blocks lo..hi-1 (list == 0) or of list[lo..hi-1], 16 worker threads
+static void run_blocks (uint32_t lo, uint32_t hi, const uint32_t* list, int cxx, int canon, uint64_t* out)
+{
+#if HAVE_CXX
+    unsigned nt = 16;
+    std::vector<std::thread> th;
+    for (unsigned t = 0; t < nt; ++t)
+        th.emplace_back ([=] {
+            set_round ();
+            for (uint32_t b = lo + t; b < hi; b += nt) out[b - lo] = any_hash (list ? list[b] : b, cxx, canon);
+            chk_round ();
+        });
+    for (auto& t : th) t.join ();
+#else
+    enum { NT = 16 };
+    pthread_t th[NT];
+    struct blk_job jobs[NT];
+    for (unsigned t = 0; t < NT; ++t)
+    {
+        struct blk_job j = { lo, hi, t, NT, cxx, canon, out, list };
+        jobs[t] = j;
+        if (pthread_create (&th[t], 0, blk_worker, &jobs[t])) exit (3);
+    }
+    for (unsigned t = 0; t < NT; ++t) pthread_join (th[t], 0);
+#endif
+}
+
 int main (int argc, char** argv)
 {
     if (argc < 2) return 2;
+    {
+        const char* rm = getenv ("HALF_CORR_ROUND");
+        if (rm && *rm)
+        {
+            if (!strcmp (rm, "ne")) g_round = FE_TONEAREST;
+            else if (!strcmp (rm, "tz")) g_round = FE_TOWARDZERO;
+            else if (!strcmp (rm, "up")) g_round = FE_UPWARD;
+            else if (!strcmp (rm, "dn")) g_round = FE_DOWNWARD;
+            else return 5;
+            set_round ();
+        }
+    }
+    if (!strcmp (argv[1], "rm_control"))
+    {
+        // positive control for the rounding-mode dimension: a conversion that DOES follow the
+        // caller's rounding mode (hardware: vcvtps2ph with _MM_FROUND_CUR_DIRECTION; software
+        // builds: a float addition), so the check can see that HALF_CORR_ROUND is in effect
+        volatile float one = 1.0f, tiny = 5.9604645e-8f;   // 1 + 2^-24: inexact in binary32
+        volatile float sum = one + tiny, dif = -one - tiny;
+        printf ("mode=%d add=%x sub=%x", fegetround (), f2u (sum), f2u (dif));
+#if defined(__F16C__) && !defined(_MSC_VER)
+        volatile float x = u2f (0x3f801001u), y = u2f (0xbf801001u);   // +-(1 + 2^-11 + 2^-23): inexact in binary16
+        printf (" f16c_cur=%x,%x", rm_control_f16c (x), rm_control_f16c (y));
+#endif
+        printf ("\n");
+        return g_round_bad ? 4 : 0;
+    }
     if (!strcmp (argv[1], "config"))
     {
-        // which #if branch of half.h this translation unit was compiled with
+        // which macros this translation unit was compiled with, and which branch they SHOULD select
+        // (a copy of half.h's condition: an input to the check, not an observation of half.h --
+        // tools/props/c02.py observes the compiled branch with nm / objdump / a poisoned table)
 #if defined(__F16C__)
         printf ("branch=f16c");
 #elif defined(IMATH_HALF_USE_LOOKUP_TABLE) && !defined(IMATH_HALF_NO_LOOKUP_TABLE)
@@ -89,31 +200,38 @@ int main (int argc, char** argv)
 #endif
         return 0;
     }
-    if (!strcmp (argv[1], "f2h_blocks"))
+    if (!strcmp (argv[1], "f2h_blocks") || !strcmp (argv[1], "f2hx_blocks"))
     {
+        int x = !strcmp (argv[1], "f2hx_blocks");
+        if (argc < (x ? 5 : 6)) return 2;
         uint32_t lo = (uint32_t) atol (argv[2]), hi = (uint32_t) atol (argv[3]);
-        int cxx = !strcmp (argv[4], "cxx"), canon = atoi (argv[5]);
+        int cxx = parse_api (argv[4]), canon = x ? -1 : atoi (argv[5]);
         uint64_t* out = (uint64_t*) malloc (sizeof (uint64_t) * (hi - lo + 1));
-#if HAVE_CXX
-        unsigned nt = 16;
-        std::vector<std::thread> th;
-        for (unsigned t = 0; t < nt; ++t)
-            th.emplace_back ([=] { for (uint32_t b = lo + t; b < hi; b += nt) out[b - lo] = block_hash (b, cxx, canon); });
-        for (auto& t : th) t.join ();
-#else
-        enum { NT = 16 };
-        pthread_t th[NT];
-        struct blk_job jobs[NT];
-        for (unsigned t = 0; t < NT; ++t)
-        {
-            struct blk_job j = { lo, hi, t, NT, cxx, canon, out };
-            jobs[t] = j;
-            if (pthread_create (&th[t], 0, blk_worker, &jobs[t])) return 3;
-        }
-        for (unsigned t = 0; t < NT; ++t) pthread_join (th[t], 0);
-#endif
+        run_blocks (lo, hi, 0, cxx, canon, out);
         for (uint32_t b = lo; b < hi; ++b) printf ("%llx\n", (unsigned long long) out[b - lo]);
-        return 0;
+        return g_round_bad ? 4 : 0;
+    }
+    if (!strcmp (argv[1], "f2h_list") || !strcmp (argv[1], "f2hx_list"))
+    {
+        int x = !strcmp (argv[1], "f2hx_list");
+        int first = x ? 3 : 4;
+        if (argc < first) return 2;
+        int cxx = parse_api (argv[2]), canon = x ? -1 : atoi (argv[3]);
+        uint32_t n = (uint32_t) (argc - first);
+        uint32_t* list = (uint32_t*) malloc (sizeof (uint32_t) * (n + 1));
+        uint64_t* out = (uint64_t*) malloc (sizeof (uint64_t) * (n + 1));
+        for (uint32_t i = 0; i < n; ++i) list[i] = (uint32_t) strtoul (argv[first + (int) i], 0, 10) & 0xffffu;
+        run_blocks (0, n, list, cxx, canon, out);
+        for (uint32_t i = 0; i < n; ++i) printf ("%llx\n", (unsigned long long) out[i]);
+        return g_round_bad ? 4 : 0;
+    }
+    if (!strcmp (argv[1], "f2hx_range"))
+    {
+        uint32_t lo = (uint32_t) strtoul (argv[2], 0, 10), hi = (uint32_t) strtoul (argv[3], 0, 10);
+        int cxx = argc > 4 ? parse_api (argv[4]) : 0;
+        feclearexcept (FE_ALL_EXCEPT);
+        for (uint64_t u = lo; u < hi; ++u) printf ("%x\n", conv_f2hx ((uint32_t) u, cxx));
+        return g_round_bad ? 4 : 0;
     }
     if (!strcmp (argv[1], "h2f_all"))
     {
@@ -124,14 +242,15 @@ int main (int argc, char** argv)
             if (canon) r = canon32 (r);
             printf ("%x\n", r);
         }
-        return 0;
+        chk_round ();
+        return g_round_bad ? 4 : 0;
     }
     if (!strcmp (argv[1], "f2h_range"))
     {
         uint32_t lo = (uint32_t) strtoul (argv[2], 0, 10), hi = (uint32_t) strtoul (argv[3], 0, 10);
-        int cxx = argc > 4 && !strcmp (argv[4], "cxx"), canon = argc > 5 ? atoi (argv[5]) : 0;
+        int cxx = argc > 4 ? parse_api (argv[4]) : 0, canon = argc > 5 ? atoi (argv[5]) : 0;
         for (uint64_t u = lo; u < hi; ++u) { uint16_t r = conv_f2h ((uint32_t) u, cxx); printf ("%x\n", canon ? canon16 (r) : r); }
-        return 0;
+        return g_round_bad ? 4 : 0;
     }
     if (!strcmp (argv[1], "f2h"))
     {
